@@ -263,6 +263,9 @@ func (p *renderState) renderExpression(expr ast.Expression, wrap bool, dot bool)
 			result = `(__str "` + string(p.interpolate(JavaScriptExpression(expr.Value))) + `")`
 			result = strings.Replace(result, `""`, ``, -1)
 			if wrap {
+				if !p.rawmode {
+					result += ` | __pug__html`
+				}
 				result = `{{` + result + `}}`
 			}
 		} else {
@@ -291,6 +294,9 @@ func (p *renderState) renderExpression(expr ast.Expression, wrap bool, dot bool)
 		}
 		result += `)`
 		if wrap {
+			if !p.rawmode {
+				result += ` | __pug__html`
+			}
 			result = `{{` + result + `}}`
 		}
 
